@@ -151,6 +151,23 @@ def _probe_class(R, cls, kind, what, w):
             exp2[i, 0] = val
         if not np.array_equal(v.data, exp2):
             R.add([K.V("ctor:wrong-slot", f"{what}({name}={val}) stored {v.data.tolist()}, expected the value at the slot declared for {name} (index {i}) and defaults elsewhere", **w)])
+    # boundary values are stored like any other: zero, negative, tiny, huge (all names at once, too)
+    for val in (0.0, -2.5, 1e-300, 1e300):
+        for i, name in enumerate(lay):
+            v = cls(**{name: val})
+            R.stats.inc("ctor_boundary_value_probes")
+            got = v.data[i, i] if kind == "cov" else v.data[i, 0]
+            if got != val:
+                R.add([K.V("ctor:boundary-value-not-stored", f"{what}({name}={val!r}) stored {got!r}", **w)])
+                break
+    if lay:
+        allv = {name: (0.0 if j % 2 == 0 else 3.0 + j) for j, name in enumerate(lay)}
+        v = cls(**allv)
+        for j, name in enumerate(lay):
+            got = v.data[j, j] if kind == "cov" else v.data[j, 0]
+            if got != allv[name]:
+                R.add([K.V("ctor:boundary-value-not-stored", f"{what}(**{allv}) stored {got!r} for {name}", **w)])
+                break
     for bad in ("not_a_name", (lay[0] + "_") if lay else "zz_", (lay[0].swapcase() if lay and lay[0].swapcase() not in lay else "Q_q")):
         try:
             cls(**{bad: 1.0})
